@@ -22,7 +22,7 @@ RULE = (
 )
 ASSUMPTIONS = ["order on mesh-type patterns is only required to be a total order consistent with ==; for permutations it must be (length, lexicographic)"]
 REQUIRED = ["calls.MeshPatt.__hash__", "calls.MeshPatt.__eq__", "calls.MeshPatt.__lt__", "hash.stable_checked", "eq.true_checked", "order.cross_subclass", "triples.checked",
-            "churn.histories", "lookup.checked", "sorted.checked"]
+            "churn.histories", "lookup.checked", "sorted.checked", "derived.twins"]
 MIN_NONTRIVIAL = 500
 CTX = None
 MON = None
@@ -267,7 +267,44 @@ def chk_sorted(ctx, eobjs, seed):
         report("sorted", [eobjs, seed], "sorted() output is not non-decreasing")
 
 
-CHECKS = {"pair": chk_pair, "triple": chk_triple, "hash": chk_hash, "sorted": chk_sorted}
+def derived_twins(o):
+    """objects equal in value to o but obtained through other API calls / copying"""
+    import copy
+    import pickle
+
+    out = []
+    try:
+        if isinstance(o, Perm):
+            out += [o.inverse().inverse(), o.rotate(4), o.rotate().rotate(-1), Perm.to_standard(list(o)), Perm(list(o)),
+                    o.compose(Perm.identity(len(o))), Perm.unrank(o.rank())]
+        elif is_meshtype(o):
+            out += [o.rotate().rotate(3), o.inverse().inverse(), o.complement().complement(), o.shade(), MeshPatt(o.pattern, list(o.shading)),
+                    MeshPatt(Perm(list(o.pattern)), sorted(o.shading, reverse=True)), MeshPatt.unrank(o.pattern, MeshPatt(o.pattern, o.shading).rank())]
+            if isinstance(o, BivincularPatt):
+                ai, av = o.get_adjacent_requirements()
+                out.append(BivincularPatt(o.pattern, ai, av))
+        elif isinstance(o, Basis):
+            out += [Basis(*reversed(o)), Basis.from_iterable(iter(o)), Basis(*o, *o)]
+        elif isinstance(o, MeshBasis):
+            out += [MeshBasis(*reversed(o)), MeshBasis.from_iterable(iter(o))]
+        out.append(copy.copy(o))
+        out.append(copy.deepcopy(o))
+        out.append(pickle.loads(pickle.dumps(o)))
+    except (pickle.PicklingError, TypeError, AttributeError):
+        pass
+    return out
+
+
+def chk_derived(ctx, eo):
+    o = decx(eo)
+    for d in derived_twins(o):
+        ctx.count("derived.twins")
+        if semantically_equal(o, d):
+            _pair(o, d)
+            _pair(d, o)
+
+
+CHECKS = {"derived": chk_derived, "pair": chk_pair, "triple": chk_triple, "hash": chk_hash, "sorted": chk_sorted}
 
 
 # ---- universe --------------------------------------------------------------------------------------------
@@ -327,6 +364,7 @@ def run(ctx, spec):
             for j in sorted(others):
                 _pair(a, U2[j])
             _pair(a, a)
+            chk_derived(ctx, encx(a))
         ctx.note(f"universe of {len(U)} values; each paired with every value of length <= 1, every basis, its own twin and {spec['sample']} sampled others (second operand a distinct equal-valued object)")
         ctx.sample({"pair": [encx(U[spec["part"]]), encx(U2[-spec["part"] - 1])]})
     elif spec["kind"] == "triples":
